@@ -1787,7 +1787,7 @@ JUDGES = {
     'C10': [judge_c10, judge_c01],      # C01's alignment check = "URL from the captured parameters reproduces the path"
     'C11': [lambda o, i: judge_cors(o, i, 'C11')],
     'C12': [lambda o, i: judge_cors(o, i, 'C12')],
-    'C13': [judge_c13, judge_c09],
+    'C13': [judge_c13, judge_c09, judge_nested],
     'C14': [judge_c14, judge_nofault],
     'C15': [judge_c15],
     'C16': [judge_c16, judge_nested],
